@@ -10,7 +10,7 @@ PROC_TIMEOUT = 1500
 RULE = ('schedules of the cooperative scheduler (scheduling points = wrapped pthread calls): for each scenario '
         '(ExecutorThread with 0-3 producers x 0-3 callbacks; FutureImpl raw-pointer pattern; FutureImpl with 0-2 '
         'extra getter copies; ExecutorThread with callbacks that call Execute again; SelectServer::Execute from 1-3 threads with callbacks that call Execute again, 0-3 RunOnce '
-        'iterations, rest drained by the destructor; PeriodicThread constructor + Stop with schedulable time-outs of the timed wait; ThreadPool with two workers and 1-3 closures; the event loop blocks in select() (wrapped) and a sleeping loop with queued callbacks and an empty pipe is reported as lost-wakeup) the non-preemptive run, every single preemption (position x thread), pairs of '
+        'iterations, rest drained by the destructor; PeriodicThread constructor + Stop with schedulable time-outs of the timed wait; ThreadPool with two workers and 1-3 closures; MutexLocker with early Release and two contenders; real FileBackedPreferences + FilePreferenceSaverThread (SetValue, Save, SetValue, Synchronize, read file, Join); SelectServer with a callback that calls DrainCallbacks(); the event loop blocks in select() (wrapped) and a sleeping loop with queued callbacks and an empty pipe is reported as lost-wakeup) the non-preemptive run, every single preemption (position x thread), pairs of '
         'preemptions (all in thorough, sampled in quick except for the two small Future scenarios, where all pairs run in quick), injected spurious wake-ups at every position (alone and '
         'combined with a preemption), and random schedules; non-trivial = the run has >= 1 wait/wake or >= 1 callback '
         'run and ends normally; distinct = distinct model output line (trace of synchronisation operations)')
@@ -21,7 +21,7 @@ ASSUMPTIONS = ['the wrapped pthread entry points are the only synchronisation in
 TRUSTED = ['modelled rather than verified: ExecutorThread::{Execute,Start,Stop,RunRemaining,~ExecutorThread}, '
            'ConsumerThread::{Run,EmptyQueue}, Thread::{Start,FastStart,Join,IsRunning,_InternalRun}, '
            'FutureImpl<T>::{Get,Set,Ref,DeRef}, Future<T> copy/destructor, SelectServer::{Execute,DrainAndExecute,RunCallbacks,'
-           'DrainCallbacks,~SelectServer} with the wake pipe as a counter, PeriodicThread::{PeriodicThread,Run,Stop}, ThreadPool::{Init,Execute,JoinAll,~ThreadPool} with two workers (hand transcription into the '
+           'DrainCallbacks,~SelectServer} with the wake pipe as a counter, PeriodicThread::{PeriodicThread,Run,Stop}, ThreadPool::{Init,Execute,JoinAll,~ThreadPool} with two workers, MutexLocker, FilePreferenceSaverThread::{SavePreferences,Synchronize,CompleteSynchronization,Join,Run}, SelectServer::{Run,Terminate} in the saver (hand transcription into the '
            'instruction lists of coq/Progs.v, validated per schedule by trace equality)',
            'props/C17/harness.cpp cooperative scheduler and pthread emulation (ld --wrap)']
 
@@ -96,7 +96,11 @@ LEVEL_TEXT = ('Coq theorems over ALL schedules (induction on the step relation o
               'callback at most once more after Stop set m_terminate, never only time-outs left (c17_periodic_stop, '
               'c17_periodic_no_deadlock). Locksets and lock/popped-callback discipline for all transcribed programs '
               'including ThreadPool (c17_lockset, c17_lock_discipline, c17_no_bad_unlock). FutureImpl raw-pointer and '
-              'two-holder patterns (c17_future_raw, c17_future_two_holders). '
+              'two-holder patterns (c17_future_raw, c17_future_two_holders). A callback that calls DrainCallbacks() itself: '
+              'nothing runs twice, everything queued has run exactly once when the owner finishes '
+              '(c17_ss_nested_drain_exec_once; queue order is not claimed there). MutexLocker with early Release(): no unlock '
+              'by a non-owner (c17_locker_no_bad_unlock). Preference-saver hand-off: the owner-only map is accessed only '
+              'under the owner token and never by the saver thread (c17_lockset, c17_prefs_owner_only). '
               'NOT proved for all schedules, only checked per enumerated schedule (scheduling points before every wrapped '
               'pthread call / select() and after every unlock; ASan in the harness child) by trace equality with the real '
               'classes: ThreadPool exactly-once and no-lost-wake-up (c17_pool_exec_once / c17_pool_no_lost_wakeup are NOT '
